@@ -62,7 +62,8 @@ def hasNil : Key → Bool
   | _ => false
 
 def sigOfLabel (label : String) : String :=
-  if label.startsWith "swap" || label.startsWith "rotate" then "multisig-order-ignored"
+  if label.startsWith "dupkey-" then "mutated-sig-accepted"   -- repeated member key, one bad slot
+  else if label.startsWith "swap" || label.startsWith "rotate" then "multisig-order-ignored"
   else if label.startsWith "omit" || label = "nosigs" then "multisig-fewer-accepted"
   else if label.startsWith "dup" || label.startsWith "extra" || label = "emptykey-extra" then "multisig-extra-or-duplicate-accepted"
   else "mutated-sig-accepted"
